@@ -191,6 +191,10 @@ pub enum Op {
     SetPolicy(PolicySpec),
     /// final: `into_records()` and drain until None was seen twice (bounded)
     Drain,
+    /// drop the reader and open a fresh one (same capacity / policy / chunk script) on the part of
+    /// the input that starts at model item j, keeping the record sets: a RecordSet may be reused
+    /// across readers
+    Restart(usize),
 }
 
 #[derive(Serialize, Deserialize, Clone, Debug, PartialEq, Default)]
